@@ -14,8 +14,12 @@ import EinoV.Proofs.C20Nest
 import EinoV.Model.C20Keys
 import EinoV.Proofs.C20Keys
 import EinoV.Proofs.C20KeysTie
+import EinoV.Proofs.C20Static
+import EinoV.Expected.C20Static
 import EinoV.Gen.FactsC20
 import EinoV.Expected.C20
+import EinoV.Gen.TransC20
+import EinoV.Proofs.TransKahn
 
 namespace EinoV.C20
 open EinoV.Gen EinoV.Build
@@ -621,6 +625,56 @@ theorem keyed_model_extends_builder (im : Impl) (ord : Ord) (mt : Ty) (b : Build
       (XB.ofB (run srcFacts im ord b ops).1 mt, (run srcFacts im ord b ops).2.1, (run srcFacts im ord b ops).2.2) :=
   runX_plain srcKFacts srcFacts (by decide) im ord mt ops b
 
+/-! ## static values of a Workflow: what a compiled runnable reads (Model/C20Static.lean) -/
+
+/-- the two source facts of the static-value model -/
+def srcSFacts : SV.SFacts := ⟨FactsC20.wfStaticValuesCopied, FactsC20.setStaticValueChecksCompiled⟩
+
+/-- Source fact tie: `Workflow.compile` copies `n.staticValues` for the handler closures;
+    `SetStaticValue` is (on the source as it is) not guarded by the `compiled` flag. -/
+theorem static_facts_match : srcSFacts = Expected.C20.sfacts := by decide
+
+/-- **static_values_frozen.**  "The compiled runnable is unaffected by later attempts", as equality
+    of run results: build a Workflow by any declarations `decl` and any calls `ops1`
+    (`SetStaticValue`, `AddInput`, Compile, runs), then make any further calls `ops2` – through the
+    retained node handles, further Compiles included.  Every runnable that existed after `ops1`
+    still exists and answers every input exactly as it did before `ops2`. -/
+theorem static_values_frozen (decl : List (String × List SV.SIn)) (inp inp' : SV.KVs)
+    (ops1 ops2 : List SV.SOp) :
+    let st1 := (SV.runOps srcSFacts inp (SV.SW.new decl, []) ops1).1
+    let st2 := (SV.runOps srcSFacts inp st1 ops2).1
+    st1.2 <+: st2.2 ∧ ∀ r ∈ st1.2, r.run st2.1 inp' = r.run st1.1 inp' := by
+  intro st1 st2
+  have hc : srcSFacts.copies = true := by rw [static_facts_match]; rfl
+  have h1 : SV.St.Closed st1 := SV.runOps_closed srcSFacts hc inp _ (SV.new_closed decl) ops1
+  exact ⟨SV.runOps_runners srcSFacts inp st1 ops2,
+    fun r hr => SV.run_closed r (h1.2 r hr) _ _ inp'⟩
+
+/-- **rejects_static_value_on_taken_path.**  "Invalid option combinations" for static values: when
+    the recorded inputs have been replayed and some node carries a static value although its whole
+    input is mapped, or on a field that an input maps, Compile returns an error (and no runnable),
+    at this and – the trie only grows – every later attempt. -/
+theorem rejects_static_value_on_taken_path (w : SV.SW) (hp : ∀ m ∈ w.nodes, m.pend = [])
+    (n : SV.SNode) (hn : n ∈ w.nodes) (hne : n.static.isEmpty = false)
+    (ht : n.trie = .whole ∨ ∃ fs p, n.trie = .fields fs ∧ p ∈ fs ∧ p ∈ n.static.keys) :
+    (SV.compile srcSFacts w).2 = none :=
+  SV.compile_static_taken srcSFacts w hp n hn hne ht
+
+/-- a Compile that hands out a runnable leaves the Workflow's graph compiled -/
+theorem static_compile_sets_compiled (w : SV.SW) (r : SV.SRunner)
+    (h : (SV.compile srcSFacts w).2 = some r) : (SV.compile srcSFacts w).1.compiled = true :=
+  SV.compile_some_compiled srcSFacts w r h
+
+/-- **workflow_static_values_fixed_partial.**  Full statement ("after a successful Compile the
+    graph can no longer be modified", for the static values): once a Workflow is compiled, no call
+    sequence changes the static values of any of its nodes, so every later Compile reads what the
+    first one read.  Proved for `guarded = true` (`SetStaticValue` looks at the `compiled` flag);
+    the source has `false`, see `late_static_value_reaches_next_compile`. -/
+theorem workflow_static_values_fixed_partial (F : SV.SFacts) (hg : F.guarded = true) (inp : SV.KVs)
+    (st : SV.St) (hc : st.1.compiled = true) (ops : List SV.SOp) :
+    (SV.runOps F inp st ops).1.1.statics = st.1.statics ∧ (SV.runOps F inp st ops).1.1.compiled = true :=
+  SV.runOps_guarded F hg inp st hc ops
+
 /-! ## non-vacuity and negation witnesses -/
 
 def exImpl : Impl := [(.conc 3, 0)]
@@ -740,6 +794,55 @@ theorem workflow_compile_panics_on_undeclared_branch_end :
     (d.lower true).compiles (exEnv true) [copts] = [.fresh .branchUnknownEnd] := by
   decide
 
+/-! ### static values -/
+
+def kv (l : List (String × SV.V)) : SV.KVs := l.foldr (fun p r => .cons p.1 p.2 r) .nil
+/-- `a` takes field `f0` from START, END takes `a`'s whole output as field `a` -/
+def svDecl : List (String × List SV.SIn) :=
+  [("a", [⟨"start", [.field "f0" "f0"]⟩]), ("end", [⟨"a", [.to "a"]⟩])]
+def svIn : SV.KVs := kv [("f0", .str "x0")]
+
+/-- set, compile, run, overwrite and add through the retained handle, run again, compile again, run:
+    the first runnable answers the same three times; the second Compile fails (the paths of the
+    static values are taken) – `static_values_frozen` and its hypotheses are not vacuous -/
+example :
+    (SV.runOps srcSFacts svIn (SV.SW.new svDecl, [])
+      [.set "a" "s" "v", .compile, .run 0, .set "a" "s" "changed", .set "a" "extra" "42", .run 0,
+       .compile, .run 0, .run 1]).2
+    = [.ok, .compiled, .ran (some (kv [("a", .obj (kv [("f0", .str "x0"), ("s", .str "v")]))])),
+       .ok, .ok, .ran (some (kv [("a", .obj (kv [("f0", .str "x0"), ("s", .str "v")]))])),
+       .error, .ran (some (kv [("a", .obj (kv [("f0", .str "x0"), ("s", .str "v")]))])), .noRunner] := by
+  decide
+
+/-- a static value on a path that an input maps is refused, at every Compile -/
+example : (SV.runOps srcSFacts svIn (SV.SW.new svDecl, [])
+    [.set "a" "f0" "clash", .compile, .compile]).2 = [.ok, .error, .error] := by decide
+
+/-- With the handler closures reading the builder's own map (`value := n.staticValues`), a later
+    `SetStaticValue` through the retained handle changes what the compiled runnable answers:
+    `static_values_frozen` is false for that value of the fact. -/
+theorem runnable_follows_late_static_value_when_aliased :
+    (SV.runOps { copies := false, guarded := false } svIn (SV.SW.new svDecl, [])
+      [.set "a" "s" "v", .compile, .run 0, .set "a" "s" "changed", .set "a" "extra" "42", .run 0]).2
+    = [.ok, .compiled, .ran (some (kv [("a", .obj (kv [("f0", .str "x0"), ("s", .str "v")]))])),
+       .ok, .ok,
+       .ran (some (kv [("a", .obj (kv [("f0", .str "x0"), ("s", .str "changed"), ("extra", .str "42")]))]))] := by
+  decide
+
+/-- The source as it is (`SetStaticValue` without a look at the `compiled` flag): a static value
+    set after Compile on a node that had none is compiled into the next runnable – the compiled
+    Workflow was modified; with the guard the second runnable is the first one again. -/
+theorem late_static_value_reaches_next_compile :
+    (SV.runOps { copies := true, guarded := false } svIn (SV.SW.new svDecl, [])
+      [.compile, .set "a" "late" "v", .compile, .run 0, .run 1]).2
+    = [.compiled, .ok, .compiled, .ran (some (kv [("a", .obj (kv [("f0", .str "x0")]))])),
+       .ran (some (kv [("a", .obj (kv [("f0", .str "x0"), ("late", .str "v")]))]))] ∧
+    (SV.runOps { copies := true, guarded := true } svIn (SV.SW.new svDecl, [])
+      [.compile, .set "a" "late" "v", .compile, .run 0, .run 1]).2
+    = [.compiled, .ok, .compiled, .ran (some (kv [("a", .obj (kv [("f0", .str "x0")]))])),
+       .ran (some (kv [("a", .obj (kv [("f0", .str "x0")]))]))] := by
+  decide
+
 /-! ### key options -/
 
 def xpt (k : Key) (ik ok : Bool) : XOp :=
@@ -806,5 +909,79 @@ example :
     modOutcome (exEnv true) (Decl.firstB (exEnv true) inner copts).1 (.edge START "a" false false none) = .compiled ∧
     Decl.again (exEnv true) (fun _ => false) [] outer copts = .ok ∧
     Decl.again (exEnv true) (fun p => p == ["g"]) [] outer copts = .compiled := by decide
+
+/-! ### Translated source: `validateDAG`
+
+`lean/EinoV/Gen/TransC20.lean` is produced on every run by `tools/factgen/gotrans*.go` from the text of
+`validateDAG` in compose/graph.go (Kahn's loop over Go maps), against the prelude `Model/GoSem*.lean`.  The
+theorems below (proved in `Proofs/TransKahn.lean`) say that the translated text decides exactly what the model's
+`validateDAG` decides — so `kahn_sound_complete` / `rejects_cycles` are statements about the code as it is now.
+The relation `KahnRel` between a builder and the Go arguments fixes no order: the statements hold for every
+stored order of `chanSubscribeTo`, of every `endNodes` map and of every predecessor list.  The Go loop has no
+fuel; the translation's fuel is irrelevant from nodes + 1 on (`translated_validateDAG_total`). -/
+section TranslatedValidateDAG
+open EinoV.GoSem EinoV.TransKahn
+variable {V : Type} [Inhabited V]
+
+theorem translated_source_is_current : FactsC20.validateDAGTranslated = true := by decide
+
+/-- the Go constants the translated text compares with are the model's reserved keys -/
+theorem translated_constants :
+    TransC20.const_START = START ∧ TransC20.const_END = END ∧
+    TransC20.const_START = EinoV.Engine.START ∧ TransC20.const_END = EinoV.Engine.END :=
+  ⟨const_START_eq, const_END_eq, const_START_engine, const_END_engine⟩
+
+/-- Go's `validateDAG` refines the model's: it returns (no panic, nothing unspecified), and it returns nil
+    exactly when the model's verdict — for any iteration order — is "valid" -/
+theorem translated_validateDAG_refines (ext : Ext V) (b : Builder) (chans : GoMap (TransC20.chanCall V))
+    (preds : GoMap (List String)) (fuel : Nat) (ord : Ord) (hv : ord.Valid) (hk : KeysOK b)
+    (hr : KahnRel b chans preds) (hf : b.nodes.length + 1 ≤ fuel) :
+    ∃ e, TransC20.validateDAG ext fuel chans preds = GoOutcome.ret e ∧ (e = none ↔ validateDAG b ord = true) :=
+  validateDAG_go_refines ext b chans preds fuel ord hv hk hr hf
+
+/-- no nil dereference, no key added to `m` while it is ranged over, and the loop `for hasChanged {…}` stops
+    within nodes + 1 rounds: every fuel from there on gives the same result -/
+theorem translated_validateDAG_total (ext : Ext V) (b : Builder) (chans : GoMap (TransC20.chanCall V))
+    (preds : GoMap (List String)) (fuel : Nat) (hk : KeysOK b) (hr : KahnRel b chans preds)
+    (hf : b.nodes.length + 1 ≤ fuel) :
+    TransC20.validateDAG ext fuel chans preds ≠ GoOutcome.panic ∧
+    TransC20.validateDAG ext fuel chans preds ≠ GoOutcome.unspecified ∧
+    ∀ fuel', b.nodes.length + 1 ≤ fuel' →
+      TransC20.validateDAG ext fuel' chans preds = TransC20.validateDAG ext fuel chans preds :=
+  validateDAG_go_total ext b chans preds fuel hk hr hf
+
+/-- Go's text returns nil exactly when every node can be scheduled, i.e. when no cycle of control edges /
+    branch targets reaches any node; a node on a cycle makes it return the error -/
+theorem translated_validateDAG_sound_complete (ext : Ext V) (b : Builder) (chans : GoMap (TransC20.chanCall V))
+    (preds : GoMap (List String)) (fuel : Nat) (hk : KeysOK b) (hr : KahnRel b chans preds)
+    (hf : b.nodes.length + 1 ≤ fuel) :
+    ∃ e, TransC20.validateDAG ext fuel chans preds = GoOutcome.ret e ∧
+      (e = none ↔ ∀ k ∈ b.nodes.map (·.key), Sched b k) ∧
+      (∀ k ∈ b.nodes.map (·.key), PredTC b k k → e = some (GoErr.mk "DAG invalid, node[%s] has loop")) := by
+  obtain ⟨e, h1, h2⟩ := validateDAG_go_sound_complete ext b chans preds fuel hk hr hf
+  refine ⟨e, h1, h2, fun k hkn hc => ?_⟩
+  have h3 := validateDAG_go_rejects_cycles ext b chans preds fuel hk hr hf k hkn hc
+  rw [h1] at h3
+  exact GoOutcome.ret.inj h3
+
+/-- the hypothesis `closed` of `KahnRel` is needed: a successor outside `chanSubscribeTo` leaves the translated
+    semantics (Go would add a key to `m` while ranging over it) -/
+example (ext : Ext Unit) :
+    TransC20.validateDAG ext 2 [("a", { writeToBranches := [], controls := ["zz"] })] [] = GoOutcome.unspecified := rfl
+
+/-- both verdicts, through the theorem, on Go maps stored in another order than the node list -/
+example (ext : Ext Unit) (fuel : Nat) (hf : 4 ≤ fuel) :
+    TransC20.validateDAG ext fuel exAcyclicChans exAcyclicPreds = GoOutcome.ret none ∧
+    TransC20.validateDAG ext fuel exCyclicChans exCyclicPreds =
+      GoOutcome.ret (some (GoErr.mk "DAG invalid, node[%s] has loop")) := by
+  obtain ⟨e, h1, h2, _⟩ := translated_validateDAG_sound_complete ext exAcyclic _ _ fuel exAcyclic_ok exAcyclic_rel hf
+  obtain ⟨e', h1', _, h3'⟩ := translated_validateDAG_sound_complete ext exCyclic _ _ fuel exCyclic_ok exCyclic_rel hf
+  have hv : validateDAG exAcyclic Ord.id = true := by decide
+  rw [h1, h1', h2.mpr ((kahn_sound_complete exAcyclic exAcyclic_ok Ord.id Ord.id_valid).mp hv),
+    h3' "a" (by decide) (PredTC.step (q := "a") (p := "b") (k := "a") (PredTC.base (by decide) (by decide))
+      (by decide) (by decide))]
+  exact ⟨rfl, rfl⟩
+
+end TranslatedValidateDAG
 
 end EinoV.C20
